@@ -95,7 +95,7 @@ def oracle_program(steps, corr, change=None):
             except Exception as e:
                 return "reading object {} raised {}: {}".format(k, type(e).__name__, str(e)[:100])
             srcs = CL.reachable_measurements(model, k)
-            pre = "" if phase == 1 else "after measurement {} := {} and recalculate(): ".format(*change)
+            pre = "" if phase == 1 else "after {} of measurement {} := {} and recalculate(): ".format(*CL.norm_change(change))
             for m, d in obs["derivs"]:
                 if m not in srcs and d != 0:
                     return pre + "object {} does not depend on measurement {} but derivative = {}".format(k, m, d)
@@ -104,10 +104,10 @@ def oracle_program(steps, corr, change=None):
                 return pre + "object {} ({}): {}".format(k, model[k], why)
         if not change or phase == 2:
             break
-        w.objs[change[0]].value = change[1]
+        CL.apply_change_impl(w, change)
         for k in w.derived_ids():
             w.objs[k].recalculate()
-        model = CL.with_value(w.model, *change)
+        model = CL.apply_change_model(w.model, change)
     return None
 
 
